@@ -1,9 +1,800 @@
-//! Family `render` — stub (replaced by the unit that owns this family).
+//! Family `render` (C07, renderer part): the real `Diagnostics::render_ansi` on arbitrary source texts
+//! with arbitrary diagnostics, built through the crate's public API (`Diagnostics::new`, `emit`, `Label`).
+//!
+//! Protocol (one request per line, one answer per line):
+//! ```text
+//! render <hex src> <hex filename> <diags>  -> out=<hex of render_ansi(src, filename)> | out=panic | bad-utf8
+//! linecol <hex src> <start>                -> line=<l> col=<c> | panic | bad-utf8
+//! ```
+//! `<diags>` = `-` (none) or diagnostics joined by `;`, each `<sev>:<lo>:<hi>:<labels>` with `<sev>` in
+//! `error|warning|note` and `<labels>` = `-` or `lo:hi` pairs joined by `,`. Code and message are fixed per
+//! severity (`CODE_MSG`), the message of label number `i` of a diagnostic is `LABEL_MSGS[i % 4]` (one is empty,
+//! two contain multi-byte characters). `linecol` renders ONE zero-width error diagnostic at `start` and
+//! answers with the `line:col` of its location line (`line_col_from_span` itself is private).
+//!
+//! Every case runs under `util::catch`: a slicing panic (debug and release builds panic alike) is the
+//! answer `out=panic`.
+//!
+//! Implementation-level oracle (needs no model), for requests whose spans are all *safe*
+//! (`lo <= hi <= len`, both ends on `is_char_boundary` — what the front-end theorems deliver):
+//! `render_ansi` must return; the output has one location line per diagnostic and its `line:col`
+//! equals an independent computation (`indep_line_col`: walk the characters before `start`, count line
+//! terminators with CRLF as one, tabs to the next multiple of 4). `ORACLE-FAIL <line> <what>` on stderr.
+//!
+//! `nvh render gen --seed S --n N --kind synth|edge|real|malformed|exhaustive|linecol [--atoms K] [--repo DIR]`
+//! `nvh render run`
+//! `nvh render memprobe --diags D [--cap MiB]`   arena consumption of one `render_ansi` call (see `memprobe`)
 
-pub fn main(_args: &[String]) -> i32 {
-    eprintln!("family render: not built yet");
-    2
+use std::process::Command;
+
+use naijascript::arena::{Arena, ArenaCow};
+use naijascript::diagnostics::{Diagnostics, Label, Severity};
+
+use crate::pipeline;
+use crate::util::{self, Out, Rng};
+
+/// The CLI's arena capacity (`SCRATCH_ARENA_CAPACITY` in `src/bin/naija/main.rs`, 64-bit).
+const ARENA_CAP: usize = 256 << 20;
+
+const CODE_MSG: [(&str, &str); 3] = [
+    ("syntax", "Missing identifier"),
+    ("semantic", "Unused variable"),
+    ("analysis", "Analysis skipped after reaching a configured resource limit"),
+];
+const LABEL_MSGS: [&str; 4] =
+    ["I dey expect statement", "dis one — na déjà vu €", "", "`x` na reserved keyword 😀"];
+
+const ATOMS: [&str; 9] = ["a", " ", "\t", "\n", "\r", "\r\n", "é", "€", "😀"];
+const FILES: [&str; 6] = ["f.ns", "", "dir/é€.ns", "a:b:3.ns", "x y.ns", "<stdin>"];
+
+pub fn main(args: &[String]) -> i32 {
+    match args.first().map(String::as_str) {
+        Some("gen") => generate(&args[1..]),
+        Some("run") => run(),
+        Some("memprobe") => memprobe(&args[1..]),
+        _ => {
+            eprintln!(
+                "usage: nvh render gen --seed S --n N --kind synth|edge|real|malformed|exhaustive|linecol [--atoms K] [--repo DIR] | nvh render run | nvh render memprobe --diags D [--cap MiB]"
+            );
+            2
+        }
+    }
 }
 
-/// Constants/tables of the compiled crate this family wants in `nvh dump-tables`.
-pub fn dump_tables(_out: &mut Vec<(String, String)>) {}
+// ------------------------------------------------------------------------------------------------
+// tables: what the compiled crate does (probed through `render_ansi`), for Gen/Render.lean
+// ------------------------------------------------------------------------------------------------
+
+/// Probes of the compiled renderer: the column reported after one tab (= TAB_WIDTH + 1), the bytes
+/// that precede `error[` / `warning[` / `note[` in a header (= BOLD ++ color) and the last four bytes of a
+/// header (= RESET).
+pub fn dump_tables(out: &mut Vec<(String, String)>) {
+    let probe = |sev: &str, src: &str, lo: usize| -> Vec<u8> {
+        let d = vec![RD { sev: sev_of(sev).unwrap(), lo, hi: lo, labels: vec![] }];
+        render_real(src, "f", &d).unwrap_or_default()
+    };
+    let o = probe("error", "\tx", 1);
+    if let Some((_, c)) = location_line_cols(&o).first().copied() {
+        out.push(("render_probe_col_after_tab".into(), c.to_string()));
+    }
+    let o = probe("error", "a\tx", 2);
+    if let Some((_, c)) = location_line_cols(&o).first().copied() {
+        out.push(("render_probe_col_after_a_tab".into(), c.to_string()));
+    }
+    for sev in ["error", "warning", "note"] {
+        let o = probe(sev, "x", 0);
+        let needle = format!("{sev}[");
+        if let Some(p) = find(&o, needle.as_bytes()) {
+            out.push((format!("render_probe_prefix_{sev}"), format!("{:?}", &o[..p])));
+        }
+        if let Some(e) = o.iter().position(|&b| b == b'\n') {
+            if e >= 4 {
+                out.push((format!("render_probe_header_tail_{sev}"), format!("{:?}", &o[e - 4..e])));
+            }
+        }
+    }
+}
+
+fn find(hay: &[u8], needle: &[u8]) -> Option<usize> {
+    hay.windows(needle.len()).position(|w| w == needle)
+}
+
+// ------------------------------------------------------------------------------------------------
+// requests
+// ------------------------------------------------------------------------------------------------
+
+#[derive(Clone, Debug)]
+struct RD {
+    sev: Severity,
+    lo: usize,
+    hi: usize,
+    labels: Vec<(usize, usize)>,
+}
+
+fn sev_of(s: &str) -> Option<Severity> {
+    match s {
+        "error" => Some(Severity::Error),
+        "warning" => Some(Severity::Warning),
+        "note" => Some(Severity::Note),
+        _ => None,
+    }
+}
+
+fn sev_idx(s: Severity) -> usize {
+    match s {
+        Severity::Error => 0,
+        Severity::Warning => 1,
+        Severity::Note => 2,
+    }
+}
+
+fn diags_text(ds: &[RD]) -> String {
+    if ds.is_empty() {
+        return "-".into();
+    }
+    ds.iter()
+        .map(|d| {
+            let l = if d.labels.is_empty() {
+                "-".to_string()
+            } else {
+                d.labels.iter().map(|(a, b)| format!("{a}:{b}")).collect::<Vec<_>>().join(",")
+            };
+            format!("{}:{}:{}:{}", pipeline::sev_name(d.sev), d.lo, d.hi, l)
+        })
+        .collect::<Vec<_>>()
+        .join(";")
+}
+
+fn parse_diags(s: &str) -> Option<Vec<RD>> {
+    if s == "-" {
+        return Some(vec![]);
+    }
+    s.split(';')
+        .map(|d| {
+            let mut it = d.splitn(4, ':');
+            let sev = sev_of(it.next()?)?;
+            let lo = it.next()?.parse().ok()?;
+            let hi = it.next()?.parse().ok()?;
+            let l = it.next()?;
+            let labels = if l == "-" {
+                vec![]
+            } else {
+                l.split(',')
+                    .map(|p| {
+                        let (a, b) = p.split_once(':')?;
+                        Some((a.parse().ok()?, b.parse().ok()?))
+                    })
+                    .collect::<Option<Vec<(usize, usize)>>>()?
+            };
+            Some(RD { sev, lo, hi, labels })
+        })
+        .collect()
+}
+
+fn request(src: &str, file: &str, ds: &[RD]) -> String {
+    format!("render {} {} {}", util::hex(src.as_bytes()), util::hex(file.as_bytes()), diags_text(ds))
+}
+
+// ------------------------------------------------------------------------------------------------
+// the real renderer
+// ------------------------------------------------------------------------------------------------
+
+/// `render_ansi(src, file)` of the given diagnostics, built with the public API. `Err` = it panicked.
+fn render_real(src: &str, file: &str, ds: &[RD]) -> Result<Vec<u8>, String> {
+    util::catch(|| {
+        let arena = Arena::new(ARENA_CAP).unwrap();
+        let mut diags = Diagnostics::new(&arena);
+        for d in ds {
+            let labels: Vec<Label<'_>> = d
+                .labels
+                .iter()
+                .enumerate()
+                .map(|(i, (a, b))| Label { message: ArenaCow::Borrowed(LABEL_MSGS[i % 4]), span: (*a..*b).into() })
+                .collect();
+            let (code, msg) = CODE_MSG[sev_idx(d.sev)];
+            diags.emit((d.lo..d.hi).into(), d.sev, code, msg, labels);
+        }
+        let out = diags.render_ansi(src, file);
+        out.as_bytes().to_vec()
+    })
+}
+
+fn safe(src: &str, lo: usize, hi: usize) -> bool {
+    lo <= hi && hi <= src.len() && src.is_char_boundary(lo) && src.is_char_boundary(hi)
+}
+
+fn all_safe(src: &str, ds: &[RD]) -> bool {
+    ds.iter().all(|d| safe(src, d.lo, d.hi) && d.labels.iter().all(|(a, b)| safe(src, *a, *b)))
+}
+
+/// Independent of `diagnostics.rs`: 1-based line and visual column of byte offset `start`.
+/// Lines end at `"\r\n"` (one terminator), `'\n'` or a lone `'\r'`; a tab advances to the next multiple
+/// of 4; every other character (the `'\r'` of an unfinished `"\r\n"` included) is one column wide.
+fn indep_line_col(src: &str, start: usize) -> (usize, usize) {
+    let mut line = 1usize;
+    let mut col = 0usize;
+    let mut it = src.char_indices().peekable();
+    while let Some((i, c)) = it.next() {
+        if i >= start {
+            break;
+        }
+        match c {
+            '\n' => {
+                line += 1;
+                col = 0;
+            }
+            '\r' => {
+                if matches!(it.peek(), Some((_, '\n'))) {
+                    col += 1;
+                } else {
+                    line += 1;
+                    col = 0;
+                }
+            }
+            '\t' => col += 4 - col % 4,
+            _ => col += 1,
+        }
+    }
+    (line, col + 1)
+}
+
+/// `(line, col)` of every location line (` ESC[1m<color>-->ESC[0m <file>:<line>:<col>`) of a rendering.
+/// No other line of the output starts with a space followed by ESC: headers, gutters, caret and label
+/// lines start with ESC, source text always follows a gutter.
+fn location_line_cols(out: &[u8]) -> Vec<(usize, usize)> {
+    let mut v = Vec::new();
+    for l in out.split(|&b| b == b'\n') {
+        if l.starts_with(b" \x1b[1m\x1b[3") && find(l, b"-->\x1b[0m ").is_some() {
+            let s = String::from_utf8_lossy(l);
+            let mut it = s.rsplitn(3, ':');
+            let col = it.next().and_then(|x| x.parse().ok());
+            let line = it.next().and_then(|x| x.parse().ok());
+            if let (Some(line), Some(col)) = (line, col) {
+                v.push((line, col));
+            } else {
+                v.push((0, 0));
+            }
+        }
+    }
+    v
+}
+
+fn oracle(src: &str, ds: &[RD], res: &Result<Vec<u8>, String>) -> Option<String> {
+    if !all_safe(src, ds) {
+        return None;
+    }
+    match res {
+        Err(msg) => Some(format!(
+            "render_ansi panicked although every span is ordered, in range and on character boundaries: {}",
+            msg.replace('\n', " ")
+        )),
+        Ok(out) => {
+            if std::str::from_utf8(out).is_err() {
+                return Some("render_ansi output is not valid UTF-8".into());
+            }
+            let got = location_line_cols(out);
+            if got.len() != ds.len() {
+                return Some(format!("{} location lines for {} diagnostics", got.len(), ds.len()));
+            }
+            for (i, (d, g)) in ds.iter().zip(got.iter()).enumerate() {
+                let want = indep_line_col(src, d.lo);
+                if *g != want {
+                    return Some(format!(
+                        "diagnostic {i} at byte {}: location line says {}:{}, independent computation {}:{}",
+                        d.lo, g.0, g.1, want.0, want.1
+                    ));
+                }
+            }
+            None
+        }
+    }
+}
+
+fn answer_line(line: &str) -> (String, Option<String>) {
+    let w: Vec<&str> = line.split_whitespace().collect();
+    let text = |h: &str| util::unhex(h).and_then(|b| String::from_utf8(b).ok());
+    match w.as_slice() {
+        ["render", hs, hf, ds] => {
+            let (Some(hsb), Some(hfb), Some(ds)) = (util::unhex(hs), util::unhex(hf), parse_diags(ds)) else {
+                return ("bad-request".into(), None);
+            };
+            let (Ok(src), Ok(file)) = (String::from_utf8(hsb), String::from_utf8(hfb)) else {
+                return ("bad-utf8".into(), None);
+            };
+            let res = render_real(&src, &file, &ds);
+            let orc = oracle(&src, &ds, &res);
+            match res {
+                Ok(out) => (format!("out={}", util::hex(&out)), orc),
+                Err(_) => ("out=panic".into(), orc),
+            }
+        }
+        ["linecol", hs, st] => {
+            let Some(hsb) = util::unhex(hs) else { return ("bad-request".into(), None) };
+            let Ok(start) = st.parse::<usize>() else { return ("bad-request".into(), None) };
+            let Some(src) = String::from_utf8(hsb).ok() else { return ("bad-utf8".into(), None) };
+            let _ = text;
+            let ds = vec![RD { sev: Severity::Error, lo: start, hi: start, labels: vec![] }];
+            let res = render_real(&src, "f", &ds);
+            let orc = oracle(&src, &ds, &res);
+            match res {
+                Ok(out) => match location_line_cols(&out).first() {
+                    Some((l, c)) => (format!("line={l} col={c}"), orc),
+                    None => ("no-location-line".into(), Some("no location line in the output".into())),
+                },
+                Err(_) => ("panic".into(), orc),
+            }
+        }
+        _ => ("bad-op".into(), None),
+    }
+}
+
+fn run() -> i32 {
+    util::silence_panics();
+    let lines = util::stdin_lines();
+    let mut out = Out::new();
+    let mut fails = 0u64;
+    for (lineno, line) in lines.iter().enumerate() {
+        let (ans, orc) = answer_line(line);
+        out.line(&ans);
+        if let Some(msg) = orc {
+            fails += 1;
+            eprintln!("ORACLE-FAIL {} {}", lineno + 1, msg);
+        }
+    }
+    eprintln!("ORACLE-SUMMARY fails={fails} lines={}", lines.len());
+    0
+}
+
+// ------------------------------------------------------------------------------------------------
+// generators
+// ------------------------------------------------------------------------------------------------
+
+fn boundaries(src: &str) -> Vec<usize> {
+    (0..=src.len()).filter(|&i| src.is_char_boundary(i)).collect()
+}
+
+fn rand_text(rng: &mut Rng, max_atoms: u64) -> String {
+    let n = rng.below(max_atoms + 1);
+    let mut s = String::new();
+    // three flavours: anything; line-oriented (words and terminators); one long line
+    let flavour = rng.below(6);
+    for _ in 0..n {
+        let a = match flavour {
+            0 | 1 | 2 => *rng.pick(&ATOMS),
+            3 | 4 => *rng.pick(&["a", "a", "b ", "\t", "é", "\n", "\r\n", "\r", "€", "😀", " "]),
+            _ => *rng.pick(&["a", "\t", "é", "€", "😀", " ", "ab"]),
+        };
+        s.push_str(a);
+    }
+    s
+}
+
+/// A random safe span, biased towards the interesting places: zero width, a line terminator, the end of
+/// the text, several lines.
+fn rand_safe_span(rng: &mut Rng, src: &str, bs: &[usize]) -> (usize, usize) {
+    let special: Vec<usize> = bs
+        .iter()
+        .copied()
+        .filter(|&i| {
+            let b = src.as_bytes();
+            i == src.len() || b[i] == b'\n' || b[i] == b'\r' || (i > 0 && (b[i - 1] == b'\n' || b[i - 1] == b'\r'))
+        })
+        .collect();
+    let lo = if rng.chance(1, 3) && !special.is_empty() { *rng.pick(&special) } else { *rng.pick(bs) };
+    let after: Vec<usize> = bs.iter().copied().filter(|&i| i >= lo).collect();
+    let hi = match rng.below(5) {
+        0 => lo,
+        1 => *after.last().unwrap(),
+        2 => after[(after.len() - 1).min(1)],
+        _ => *rng.pick(&after),
+    };
+    (lo, hi)
+}
+
+fn rand_sev(rng: &mut Rng) -> Severity {
+    *rng.pick(&[Severity::Error, Severity::Error, Severity::Warning, Severity::Note])
+}
+
+fn gen_synth(rng: &mut Rng, n: u64, out: &mut Out) {
+    for _ in 0..n {
+        let max_atoms = if rng.chance(1, 10) { 60 } else { 14 };
+        let src = rand_text(rng, max_atoms);
+        let bs = boundaries(&src);
+        let nd = match rng.below(8) {
+            0 => 0,
+            1..=4 => 1,
+            5 | 6 => 2,
+            _ => 3 + rng.below(3),
+        };
+        let mut ds = Vec::new();
+        for _ in 0..nd {
+            let (lo, hi) = rand_safe_span(rng, &src, &bs);
+            let nl = match rng.below(6) {
+                0..=2 => 0,
+                3 => 1,
+                4 => 2,
+                _ => 3,
+            };
+            let mut labels = Vec::new();
+            for _ in 0..nl {
+                // same span / same line region / anywhere
+                let l = match rng.below(4) {
+                    0 => (lo, hi),
+                    1 => (lo, lo),
+                    _ => rand_safe_span(rng, &src, &bs),
+                };
+                labels.push(l);
+            }
+            ds.push(RD { sev: rand_sev(rng), lo, hi, labels });
+        }
+        out.line(&request(&src, rng.pick(&FILES), &ds));
+    }
+}
+
+/// Hand-picked edge cases, every safe span (and every safe label position) of each.
+fn gen_edge(out: &mut Out) {
+    let texts = [
+        "",
+        "\n",
+        "\r",
+        "\r\n",
+        "a\n",
+        "a\r\n",
+        "a\r",
+        "a\nb",
+        "a\r\nb",
+        "a\rb",
+        "\n\n",
+        "\r\r",
+        "\r\n\r\n",
+        "\n\r",
+        "\r\r\n",
+        "é\n€\r\n😀\r",
+        "\ta\tb",
+        "a\tb\n\tc",
+        "\t\t",
+        "abc\tdé\t€\n",
+        "make x get 1\nmake y get \"a\\€b\"\r\nshout(x)\n",
+        "😀😀\r\n\t😀",
+    ];
+    for t in texts {
+        let bs = boundaries(t);
+        for &lo in &bs {
+            for &hi in bs.iter().filter(|&&h| h >= lo) {
+                out.line(&request(t, "f.ns", &[RD { sev: Severity::Error, lo, hi, labels: vec![] }]));
+            }
+        }
+        // one diagnostic at every boundary with a label at every boundary (zero width and to the end)
+        if bs.len() <= 16 {
+            for &lo in &bs {
+                for &l in &bs {
+                    let end = *bs.last().unwrap();
+                    out.line(&request(
+                        t,
+                        "f.ns",
+                        &[RD { sev: Severity::Warning, lo, hi: lo, labels: vec![(l, l), (l, end)] }],
+                    ));
+                }
+            }
+        }
+    }
+    // a long line, many lines (gutter width 1 -> 2 -> 3 -> 4)
+    let long: String = "x".repeat(3000) + "\té€😀" + &"y".repeat(3000);
+    for (lo, hi) in [(0, 0), (2999, 3001), (3001, 3003), (3003, 3006), (3006, 3010), (6010, 6010), (0, 6010)] {
+        out.line(&request(&long, "f.ns", &[RD { sev: Severity::Error, lo, hi, labels: vec![(lo, hi)] }]));
+    }
+    for nlines in [9usize, 10, 99, 100, 999, 1000, 1001] {
+        let t = "a\n".repeat(nlines - 1) + "b";
+        let last = t.len() - 1;
+        out.line(&request(&t, "f.ns", &[RD { sev: Severity::Note, lo: last, hi: last + 1, labels: vec![(0, 1)] }]));
+        out.line(&request(&t, "f.ns", &[RD { sev: Severity::Note, lo: 0, hi: 1, labels: vec![(last, last + 1)] }]));
+    }
+}
+
+/// All texts of at most `k` atoms; for each, every safe span as the span of a single diagnostic, and one
+/// diagnostic with a random label.
+fn gen_exhaustive(rng: &mut Rng, k: u64, linecol_only: bool, out: &mut Out) {
+    let mut texts: Vec<String> = vec![String::new()];
+    let mut frontier: Vec<String> = vec![String::new()];
+    for _ in 0..k {
+        let mut next = Vec::new();
+        for t in &frontier {
+            for a in ATOMS {
+                next.push(format!("{t}{a}"));
+            }
+        }
+        texts.extend(next.iter().cloned());
+        frontier = next;
+    }
+    texts.sort();
+    texts.dedup(); // "\r" + "\n" = "\r\n"
+    for t in &texts {
+        let bs = boundaries(t);
+        if linecol_only {
+            for &p in &bs {
+                out.line(&format!("linecol {} {}", util::hex(t.as_bytes()), p));
+            }
+            continue;
+        }
+        for &lo in &bs {
+            for &hi in bs.iter().filter(|&&h| h >= lo) {
+                out.line(&request(t, "f.ns", &[RD { sev: Severity::Error, lo, hi, labels: vec![] }]));
+            }
+        }
+        let (lo, hi) = rand_safe_span(rng, t, &bs);
+        let l = rand_safe_span(rng, t, &bs);
+        out.line(&request(t, "f.ns", &[RD { sev: Severity::Warning, lo, hi, labels: vec![l] }]));
+    }
+}
+
+/// Unsafe spans: inside characters, reversed, beyond the end. The model must answer `out=panic` exactly
+/// when the real code panics.
+fn gen_malformed(rng: &mut Rng, n: u64, out: &mut Out) {
+    // the D-07b shape first: a span ending inside the euro sign of `"a\€b"`
+    out.line(&request("\"a\\€b\"", "f.ns", &[RD { sev: Severity::Error, lo: 2, hi: 4, labels: vec![] }]));
+    out.line(&request("\"a\\€b\"", "f.ns", &[RD { sev: Severity::Error, lo: 2, hi: 4, labels: vec![(2, 4)] }]));
+    out.line(&request("1.é", "f.ns", &[RD { sev: Severity::Error, lo: 0, hi: 3, labels: vec![] }]));
+    out.line(&request("ab", "f.ns", &[RD { sev: Severity::Error, lo: 2, hi: 1, labels: vec![] }]));
+    out.line(&request("ab", "f.ns", &[RD { sev: Severity::Error, lo: 0, hi: 9, labels: vec![] }]));
+    out.line(&request("ab", "f.ns", &[RD { sev: Severity::Error, lo: 3, hi: 3, labels: vec![] }]));
+    for _ in 0..n {
+        let src = rand_text(rng, 12);
+        let len = src.len() as u64;
+        let any = |rng: &mut Rng| -> usize {
+            match rng.below(12) {
+                0 => (len + 1 + rng.below(3)) as usize,
+                1 => usize::MAX - rng.below(2) as usize,
+                _ => rng.below(len + 1) as usize,
+            }
+        };
+        let bs = boundaries(&src);
+        let mut ds = Vec::new();
+        let nd = 1 + rng.below(2);
+        for _ in 0..nd {
+            // mostly one bad end, the rest safe, so that each slice site is reached
+            let (mut lo, mut hi) = rand_safe_span(rng, &src, &bs);
+            match rng.below(5) {
+                0 => lo = any(rng),
+                1 => hi = any(rng),
+                2 => {
+                    lo = any(rng);
+                    hi = any(rng);
+                }
+                3 => std::mem::swap(&mut lo, &mut hi),
+                _ => {}
+            }
+            let mut labels = Vec::new();
+            for _ in 0..rng.below(3) {
+                let (mut a, mut b) = rand_safe_span(rng, &src, &bs);
+                match rng.below(5) {
+                    0 => a = any(rng),
+                    1 => b = any(rng),
+                    2 => {
+                        a = any(rng);
+                        b = any(rng);
+                    }
+                    3 => std::mem::swap(&mut a, &mut b),
+                    _ => {}
+                }
+                labels.push((a, b));
+            }
+            ds.push(RD { sev: rand_sev(rng), lo, hi, labels });
+        }
+        out.line(&request(&src, rng.pick(&FILES), &ds));
+    }
+}
+
+/// Source texts of another family's generator (`nvh <family> gen …`): the second word of every request
+/// line is the hex source.
+fn texts_of(family: &str, kind: &str, seed: u64, n: u64) -> Vec<String> {
+    let exe = std::env::current_exe().expect("current_exe");
+    let o = Command::new(exe)
+        .args([family, "gen", "--kind", kind, "--seed", &seed.to_string(), "--n", &n.to_string()])
+        .output();
+    let Ok(o) = o else { return vec![] };
+    String::from_utf8_lossy(&o.stdout)
+        .lines()
+        .filter_map(|l| l.split_whitespace().nth(1).and_then(util::unhex).and_then(|b| String::from_utf8(b).ok()))
+        .collect()
+}
+
+/// The diagnostics the real front end (lexer + parser, then the resolver when the parser is silent —
+/// what the CLI does) reports on `src`, as request data. The real `render_ansi` is run on the REAL
+/// diagnostics (their own messages) right here; a panic is returned as `Err`.
+fn front_end_diags(src: &str) -> Result<Vec<RD>, String> {
+    util::catch(|| {
+        let arena = Arena::new(ARENA_CAP).unwrap();
+        pipeline::with_resolved(src, &arena, |_, perrs, resolver| {
+            let d = match resolver {
+                Some(r) => &r.errors,
+                None => perrs,
+            };
+            let ds: Vec<RD> = d
+                .diagnostics
+                .iter()
+                .map(|x| RD {
+                    sev: x.severity,
+                    lo: x.span.start,
+                    hi: x.span.end,
+                    labels: x.labels.iter().map(|l| (l.span.start, l.span.end)).collect(),
+                })
+                .collect();
+            ds
+        })
+    })
+}
+
+fn mutate(rng: &mut Rng, text: &str) -> String {
+    let mut cs: Vec<char> = text.chars().collect();
+    let ins = ["@", "\"", "1.", "\\", "é", "€", "😀", "\t", "\r\n", "\r", "\n", "(", ")", "end", "start", "make", "'", "{", "#"];
+    for _ in 0..1 + rng.below(4) {
+        let at = rng.below(cs.len() as u64 + 1) as usize;
+        match rng.below(3) {
+            0 if !cs.is_empty() => {
+                let at = at.min(cs.len() - 1);
+                let k = (1 + rng.below(6) as usize).min(cs.len() - at);
+                cs.drain(at..at + k);
+            }
+            1 if !cs.is_empty() => {
+                let at = at.min(cs.len() - 1);
+                let r: Vec<char> = rng.pick(&ins).chars().collect();
+                cs.splice(at..at + 1, r);
+            }
+            _ => {
+                let r: Vec<char> = rng.pick(&ins).chars().collect();
+                cs.splice(at..at, r);
+            }
+        }
+    }
+    // sometimes convert the line ends
+    let s: String = cs.into_iter().collect();
+    match rng.below(6) {
+        0 => s.replace('\n', "\r\n"),
+        1 => s.replace('\n', "\r"),
+        _ => s,
+    }
+}
+
+fn shipped_texts(repo: &str) -> Vec<String> {
+    let mut v = Vec::new();
+    for dir in ["examples", "tests/stress", "tests/fixtures"] {
+        if let Ok(rd) = std::fs::read_dir(format!("{repo}/{dir}")) {
+            let mut ps: Vec<_> = rd.flatten().map(|e| e.path()).collect();
+            ps.sort();
+            for p in ps {
+                if p.extension().is_some_and(|e| e == "ns") {
+                    if let Ok(s) = std::fs::read_to_string(&p) {
+                        v.push(s);
+                    }
+                }
+            }
+        }
+    }
+    // the string literals of the test files (r#"…"# and "…" of at least 12 bytes)
+    if let Ok(rd) = std::fs::read_dir(format!("{repo}/tests")) {
+        let mut ps: Vec<_> = rd.flatten().map(|e| e.path()).collect();
+        ps.sort();
+        for p in ps {
+            if p.extension().is_some_and(|e| e == "rs") {
+                if let Ok(s) = std::fs::read_to_string(&p) {
+                    let mut rest = s.as_str();
+                    while let Some(i) = rest.find("r#\"") {
+                        let body = &rest[i + 3..];
+                        if let Some(j) = body.find("\"#") {
+                            v.push(body[..j].to_string());
+                            rest = &body[j + 2..];
+                        } else {
+                            break;
+                        }
+                    }
+                    for l in s.lines() {
+                        if let (Some(a), Some(b)) = (l.find('"'), l.rfind('"')) {
+                            if b > a + 12 && !l.contains("r#") {
+                                v.push(l[a + 1..b].replace("\\n", "\n").replace("\\\"", "\"").replace("\\t", "\t"));
+                            }
+                        }
+                    }
+                }
+            }
+        }
+    }
+    v
+}
+
+/// (ii) the diagnostics of the real front end on generated and mutated shipped texts.
+fn gen_real(rng: &mut Rng, seed: u64, n: u64, repo: &str, out: &mut Out) {
+    let mut pool: Vec<String> = Vec::new();
+    let per = (n / 2).max(20);
+    pool.extend(texts_of("lex", "grammar", seed, per));
+    pool.extend(texts_of("parse", "mix", seed, per));
+    pool.extend(texts_of("parse", "mut", seed, per));
+    pool.extend(texts_of("resolve", "viol", seed, per / 2));
+    pool.extend(texts_of("resolve", "mixed", seed, per / 2));
+    let shipped = shipped_texts(repo);
+    let mut produced = 0u64;
+    let mut tries = 0u64;
+    let mut crashed = 0u64;
+    while produced < n && tries < n * 30 {
+        tries += 1;
+        let src = if !shipped.is_empty() && (pool.is_empty() || rng.chance(1, 3)) {
+            {
+                let i = rng.below(shipped.len() as u64) as usize;
+                mutate(rng, &shipped[i])
+            }
+        } else if !pool.is_empty() {
+            let t = pool.swap_remove(rng.below(pool.len() as u64) as usize);
+            if rng.chance(1, 4) { mutate(rng, &t) } else { t }
+        } else {
+            break;
+        };
+        if src.len() > 20_000 {
+            continue;
+        }
+        match front_end_diags(&src) {
+            Ok(mut ds) => {
+                if ds.is_empty() {
+                    continue;
+                }
+                // keep the request small: a window of at most 12 diagnostics
+                if ds.len() > 12 {
+                    let at = rng.below((ds.len() - 11) as u64) as usize;
+                    ds = ds[at..at + 12].to_vec();
+                }
+                out.line(&request(&src, rng.pick(&FILES), &ds));
+                produced += 1;
+            }
+            Err(_) => crashed += 1, // a front-end panic is the business of the lex/parse/resolve units
+        }
+    }
+    eprintln!("render gen real: produced={produced} tries={tries} front_end_panics={crashed}");
+}
+
+fn generate(args: &[String]) -> i32 {
+    util::silence_panics();
+    let seed = util::opt_u64(args, "--seed", 1);
+    let n = util::opt_u64(args, "--n", 1000);
+    let kind = util::opt(args, "--kind").unwrap_or("synth");
+    let atoms = util::opt_u64(args, "--atoms", 3);
+    let repo =
+        util::opt(args, "--repo").map(str::to_string).or_else(|| std::env::var("NV_REPO").ok()).unwrap_or_else(|| "/repo".to_string());
+    let mut rng = Rng::new(seed ^ 0x7E4D);
+    let mut out = Out::new();
+    match kind {
+        "synth" => gen_synth(&mut rng, n, &mut out),
+        "edge" => gen_edge(&mut out),
+        "exhaustive" => gen_exhaustive(&mut rng, atoms, false, &mut out),
+        "linecol" => gen_exhaustive(&mut rng, atoms, true, &mut out),
+        "malformed" => gen_malformed(&mut rng, n, &mut out),
+        "real" => gen_real(&mut rng, seed, n, &repo, &mut out),
+        _ => {
+            eprintln!("unknown --kind {kind}");
+            return 2;
+        }
+    }
+    0
+}
+
+// ------------------------------------------------------------------------------------------------
+// memory probe
+// ------------------------------------------------------------------------------------------------
+
+/// `D` lines `"@\n"` with one (lexical-error shaped) diagnostic on each — what the CLI renders for a file
+/// of `D` stray characters — rendered by ONE `render_ansi` call on an arena of `--cap` MiB (default: the
+/// CLI's 256). Prints `diags=<D> src=<bytes> out=<bytes> arena_used=<bytes committed by the call>`.
+/// The process aborts (`memory allocation of … bytes failed`) when the arena is exhausted; the caller sees
+/// the exit status.
+fn memprobe(args: &[String]) -> i32 {
+    let d = util::opt_u64(args, "--diags", 1000) as usize;
+    let cap = util::opt_u64(args, "--cap", 256) as usize;
+    let src = "@\n".repeat(d);
+    let arena = Arena::new(cap << 20).unwrap();
+    let mut diags = Diagnostics::new(&arena);
+    for i in 0..d {
+        diags.emit((2 * i..2 * i + 1).into(), Severity::Error, "lexical", "Unexpected character", Vec::new());
+    }
+    let before = naijascript::arena::verif_hooks::arena_commit(&arena);
+    let out = diags.render_ansi(&src, "f.ns");
+    let after = naijascript::arena::verif_hooks::arena_commit(&arena);
+    println!("diags={d} src={} out={} arena_used={}", src.len(), out.len(), after - before);
+    0
+}
